@@ -91,9 +91,7 @@ func init() {
 			fr.i.x.drainGoroutines(fr.i)
 			return nil
 		},
-		"(*sync.Once).Do":  extOnceDo,
-		"(*sync.Pool).Put": nop,
-		"(*sync.Pool).Get": extPoolGet,
+		"(*sync.Once).Do": extOnceDo,
 
 		// sync/atomic
 		"sync/atomic.LoadUint32":            atomicLoad,
@@ -1273,4 +1271,151 @@ func printableRanges(lo, hi rune) [][2]rune {
 	}
 	printableCache[k] = out
 	return out
+}
+
+// ---- errors.Is / errors.As (the library versions use reflectlite) ----
+
+func (i *interpreter) methodOf(t types.Type, name string) *ssa.Function {
+	ms := i.prog.MethodSets.MethodSet(t)
+	sel := ms.Lookup(nil, name)
+	if sel == nil {
+		// unexported lookups need the package; only exported names are used here
+		return nil
+	}
+	return i.prog.MethodValue(sel)
+}
+
+func (i *interpreter) errorsIs(fr *frame, err, target iface, depth int) bool {
+	if depth > 64 {
+		panic(unsupported("errors.Is: chain too deep"))
+	}
+	for {
+		if err.t == nil {
+			return target.t == nil
+		}
+		if sameType(err.t, target.t) && types.Comparable(err.t) {
+			if i.x.truth(i.x.symEquals(err.t, err.v, target.v), "errors.Is ==") {
+				return true
+			}
+		}
+		if m := i.methodOf(err.t, "Is"); m != nil {
+			if sig := m.Signature; sig.Params().Len() == 1 && sig.Results().Len() == 1 {
+				if r, ok := call(i, fr, token.NoPos, m, []value{err.v, target}).(bool); ok && r {
+					return true
+				}
+			}
+		}
+		m := i.methodOf(err.t, "Unwrap")
+		if m == nil || m.Signature.Params().Len() != 0 || m.Signature.Results().Len() != 1 {
+			return false
+		}
+		r := call(i, fr, token.NoPos, m, []value{err.v})
+		switch r := r.(type) {
+		case iface:
+			if r.t == nil {
+				return false
+			}
+			err = r
+		case []value:
+			for _, e := range r {
+				if e, ok := e.(iface); ok && e.t != nil && i.errorsIs(fr, e, target, depth+1) {
+					return true
+				}
+			}
+			return false
+		default:
+			return false
+		}
+		depth++
+		if depth > 64 {
+			panic(unsupported("errors.Is: chain too deep"))
+		}
+	}
+}
+
+func (i *interpreter) errorsAs(fr *frame, err iface, target iface, depth int) bool {
+	pt, ok := target.t.Underlying().(*types.Pointer)
+	if !ok {
+		panic(targetPanic{iface{types.Typ[types.String], "errors: target must be a non-nil pointer"}})
+	}
+	cell, _ := target.v.(*value)
+	if cell == nil {
+		panic(targetPanic{iface{types.Typ[types.String], "errors: target cannot be nil"}})
+	}
+	want := pt.Elem()
+	for depth < 64 {
+		if err.t == nil {
+			return false
+		}
+		if it, ok := want.Underlying().(*types.Interface); ok {
+			if types.Implements(err.t, it) {
+				*cell = err
+				return true
+			}
+		} else if types.Identical(err.t, want) {
+			*cell = err.v
+			return true
+		}
+		if m := i.methodOf(err.t, "As"); m != nil && m.Signature.Params().Len() == 1 {
+			if r, ok := call(i, fr, token.NoPos, m, []value{err.v, target}).(bool); ok && r {
+				return true
+			}
+		}
+		m := i.methodOf(err.t, "Unwrap")
+		if m == nil || m.Signature.Params().Len() != 0 || m.Signature.Results().Len() != 1 {
+			return false
+		}
+		r := call(i, fr, token.NoPos, m, []value{err.v})
+		switch r := r.(type) {
+		case iface:
+			err = r
+		case []value:
+			for _, e := range r {
+				if e, ok := e.(iface); ok && e.t != nil && i.errorsAs(fr, e, target, depth+1) {
+					return true
+				}
+			}
+			return false
+		default:
+			return false
+		}
+		depth++
+	}
+	panic(unsupported("errors.As: chain too deep"))
+}
+
+// ---- sync.Pool: Get may return any previously Put item or a new one ----
+
+func init() {
+	externals["errors.Is"] = func(fr *frame, args []value) value {
+		return fr.i.errorsIs(fr, args[0].(iface), args[1].(iface), 0)
+	}
+	externals["errors.As"] = func(fr *frame, args []value) value {
+		return fr.i.errorsAs(fr, args[0].(iface), args[1].(iface), 0)
+	}
+	externals["(*sync.Pool).Put"] = func(fr *frame, args []value) value {
+		x := fr.i.x
+		if x.pools == nil {
+			x.pools = map[*value][]value{}
+		}
+		p := args[0].(*value)
+		if it, ok := args[1].(iface); ok && it.t == nil {
+			return nil
+		}
+		x.pools[p] = append(x.pools[p], args[1])
+		return nil
+	}
+	externals["(*sync.Pool).Get"] = func(fr *frame, args []value) value {
+		x := fr.i.x
+		p := args[0].(*value)
+		if items := x.pools[p]; len(items) > 0 {
+			// the runtime may hand back the most recently pooled item, or none
+			if x.choose(2, "sync.Pool reuse") == 0 {
+				it := items[len(items)-1]
+				x.pools[p] = items[:len(items)-1]
+				return it
+			}
+		}
+		return extPoolGet(fr, args)
+	}
 }
